@@ -69,7 +69,8 @@ type Conn struct {
 	EOFInstead  bool // read faults deliver io.EOF instead of an error
 	failed      bool
 
-	Yield func() // called (outside the lock) at every Read/Write for schedule diversity
+	CloseErr error // returned by the server-side Close (the connection is closed all the same)
+	Yield    func() // called (outside the lock) at every Read/Write for schedule diversity
 	addr  *Addr
 }
 
@@ -199,7 +200,7 @@ func (c *Conn) Close() error {
 		c.log(Event{Kind: "X"})
 	}
 	c.cond.Broadcast()
-	return nil
+	return c.CloseErr
 }
 
 func (c *Conn) LocalAddr() net.Addr                { return &Addr{C: c} }
